@@ -10,8 +10,8 @@ import sys
 sys.path.insert(0, "/verif")
 from harness.common import Ctx, KNOWN  # noqa
 
-ARGS = {"C01": (600, 6000), "C02": (600, 5000), "C03": (120, 125), "C04": (700, 0), "C05": (700, 0), "C07": (6000, 0), "C08": (300, 4),
-        "C12": (800, 0), "C13": (3000, 0)}
+ARGS = {"C01": (1800, 18000), "C02": (1800, 15000), "C03": (300, 125), "C04": (2100, 0), "C05": (2100, 0), "C07": (18000, 0), "C08": (900, 4),
+        "C12": (2400, 0), "C13": (9000, 0)}
 
 
 def main():
